@@ -146,7 +146,7 @@ func scanEngine(prop, tier string, rng *rand.Rand, replay []json.RawMessage) (*E
 		suffix = "scan"
 	}
 	res := &EngineResult{Import: "CorrScan", CaseType: "scan_case", PerShard: 60,
-		Evals: []EvalDef{{"R", "mismatches_" + suffix}, {"V", "propfail_" + suffix}, {"T", "tags_scan"}},
+		Evals: []EvalDef{{"R", "mismatches_" + suffix}, {"V", "propfail_" + suffix}, {"T", "tags_scan"}, {"W", "illformed_scan"}},
 		Rule: "scans of the real Controller.RunOnce over a simulated API server and simulated AWS; per-property boundary-directed worlds first, then multi-scan " +
 			"histories of one controller instance (every scan emitted with its actual pre-scan state), then free-combination random worlds; " +
 			"non-trivial = the scan issued at least one Kubernetes or AWS call; distinct = distinct (journal, post-state, outcome)",
